@@ -9,4 +9,6 @@ package crypto
 //@   ensures result <==> exists i int :: 0 <= i && i < 32 && h[i] != 0
 
 //@ assume func Blake3Hash(data)
+//@   -- blake3.Sum256 of the content (external dependency); Blake3Of is declared in zz_contracts_c30_verif.go
 //@   modifies nothing
+//@   ensures result == Blake3Of(seq(data))
